@@ -103,7 +103,8 @@ func (r *Rule) Init() error {
 		r.irregularMap[item.Word] = item.Replacement
 	}
 
-	reString = fmt.Sprintf(`(?i)(.*)\b((?:%s))$`, strings.Join(vIrregulars, `|`))
+	// (?s): the text before the word may hold newlines, it must be kept too
+	reString = fmt.Sprintf(`(?is)(.*)\b((?:%s))$`, strings.Join(vIrregulars, `|`))
 	r.compiledIrregular = regexp.MustCompile(reString)
 
 	r.compiledRules = make([]*CompiledRule, len(r.Rules))
